@@ -112,3 +112,6 @@ func WriteJSON(path string, v any) error {
 	}
 	return os.WriteFile(path, b, 0o644)
 }
+
+// NumToInt converts a uint64 to an sdk math.Int.
+func NumToInt(x uint64) sdkmath.Int { return sdkmath.NewIntFromUint64(x) }
